@@ -20,6 +20,7 @@ package shmipc
 import (
 	"encoding/binary"
 	"fmt"
+	"os"
 	"sync"
 	"sync/atomic"
 	"testing"
@@ -40,6 +41,7 @@ type c07Pipe struct {
 	Dir      int      `json:"dir"`
 	Flushed  []c07Msg `json:"flushed"` // successful flushes, in flush order
 	Failed   []string `json:"failed"`  // flushes that returned an error (class)
+	Maybe    []int    `json:"maybe,omitempty"` // flushes that timed out: delivery undetermined, neither required nor forbidden
 	Closed   bool     `json:"closed"`  // the writer closed the stream after its last flush
 	CloseVia string   `json:"close_via,omitempty"`
 	Got      []c07Msg `json:"got"` // what the reader was offered, in order (End entries = end of stream)
@@ -207,6 +209,10 @@ func (p *c07Pipe) write(n int) (string, error) {
 	p.mu.Lock()
 	if err != nil {
 		p.Failed = append(p.Failed, fmt.Sprintf("seq %d: %v", seq, err))
+		if err == ErrConnectionWriteTimeout || err == ErrTimeout {
+			// the call gave up waiting (a busy machine); whether the message still goes out is undetermined
+			p.Maybe = append(p.Maybe, seq)
+		}
 	} else {
 		p.Flushed = append(p.Flushed, c07Msg{Stream: p.Stream, Dir: p.Dir, Seq: seq, Via: via})
 	}
@@ -330,6 +336,13 @@ func c07Judge(p *c07Pipe, final bool) []c07Fail {
 			continue
 		}
 		if _, ok := pos[m.Seq]; !ok {
+			undetermined := false
+			for _, q := range p.Maybe {
+				undetermined = undetermined || q == m.Seq
+			}
+			if undetermined {
+				continue
+			}
 			add("C07:isolation-message-never-flushed-successfully", fmt.Sprintf("received seq %d which was not flushed successfully", m.Seq))
 			continue
 		}
@@ -1297,12 +1310,14 @@ func TestVerif_C07(t *testing.T) {
 	id++
 	o.emit(c07CloseEventFirst(id))
 	id++
-	o.emit(c07ReaderWait(id, true))
-	id++
-	o.emit(c07ReaderWait(id, false))
-	id++
-	o.emit(c07ReaderEntry(id))
-	id++
+	if os.Getenv("VERIF_C07_NOCTL") == "" { // these need readMore's select under control (overlay rewrite of stream.go)
+		o.emit(c07ReaderWait(id, true))
+		id++
+		o.emit(c07ReaderWait(id, false))
+		id++
+		o.emit(c07ReaderEntry(id))
+		id++
+	}
 	o.emit(c07FlushThenClose(id, 6))
 	id++
 	for k := 0; k < n; k++ {
